@@ -215,7 +215,7 @@ def rand_spec(rng, types=TYPES, maxlen=12):
         seq = "A" + seq[1:]
     rate = rng.choice(RATES)
     return AdSpec(
-        typ, seq, rate, rng.randint(1, max(1, m)),
+        typ, seq, rate, rng.randint(1, max(1, m)) if rng.random() < 0.9 else m + rng.choice([1, 2, 5, 30]),   # larger than the adapter: capped
         read_wildcards=rng.random() < 0.25,
         adapter_wildcards=rng.random() < 0.8,
         indels=rng.random() < 0.6,
